@@ -158,9 +158,15 @@ class HexaryTrie:
                 #   be pointing to a value that doesn't exist.
                 return BLANK_NODE
         elif node_type == NODE_TYPE_EXTENSION:
-            if len(remaining_key) > 0:
-                # Any remaining key should have traversed down into the extension's
-                # child. (or returned a blank node if the key didn't
+            if len(remaining_key) > 0 and key_starts_with(
+                extract_key(node), remaining_key
+            ):
+                # The key ends part-way into the extension's path. Only keys that
+                # traverse the whole extension can hold a value, so there is none.
+                return BLANK_NODE
+            elif len(remaining_key) > 0:
+                # Any other remaining key should have traversed down into the
+                # extension's child. (or returned a blank node if the key didn't
                 # match the extension)
                 raise ValidationError(
                     "Traverse should never return an extension node "
